@@ -30,7 +30,9 @@ LEVEL_TEXT = ("Seeded corruptions of valid native/legacy images (every prefix of
               "missing and unknown fields, out-of-range values, bad keys), arbitrary JSON to depth 6, 100k-deep "
               "nesting, undecodable bytes, and raw-device OSErrors on open/read/close are loaded through the real "
               "aiofiles + io stack from the simulated disk; any outcome other than success or PersistenceReadError is "
-              "a violation. Missing-file and empty-file rules are checked on the disk image.")
+              "a violation. Missing-file and empty-file rules are checked on the disk image. A fifth of the damaged files "
+              "are loaded while the device refuses everything but reading (second open, any write): whatever a loader "
+              "does besides reading may fail only as a library error.")
 LEVEL_NOTE = ("Trusted: SimDisk. Write-side faults are outside this property's quantifier and are not injected here "
               "(the file created for a missing file is written fault-free).")
 TECHNIQUE = "deterministic simulation: storage-fault injection at restart (corrupted durable image, device read errors)"
